@@ -10,6 +10,13 @@ class NotMergeable(Exception):
     pass
 
 
+FAST = [False]      # indicator mode: build terms without simplifying (terms get large; syntactic sharing is what matters)
+
+
+def _simp(t):
+    return t if FAST[0] else z3.simplify(t)
+
+
 def _or(*ts):
     ts = [t for t in ts if t is not None]
     if not ts:
@@ -48,9 +55,9 @@ def arith(op, a, b):
                 return 0 if ints else Fraction(0)
         x, y = (z3num(a), z3num(b)) if ints else (z3real(a), z3real(b))
         t = x + y if op == '+' else (x - y if op == '-' else x * y)
-        return mk_num(z3.simplify(t), nan)
+        return mk_num(_simp(t), nan)
     if op == '/':
-        return mk_num(z3.simplify(z3real(a) / z3real(b)), nan)
+        return mk_num(_simp(z3real(a) / z3real(b)), nan)
     if op == '//':
         if ints:
             return mk_num(z3.simplify(py_floordiv_int(z3num(a), z3num(b))))
@@ -365,7 +372,7 @@ def truthy(v):
 
 def ite(c, a, b):
     """Value-level if-then-else on a z3 Bool condition."""
-    c = z3.simplify(c)
+    c = _simp(c)
     if z3.is_true(c):
         return a
     if z3.is_false(c):
